@@ -20,7 +20,6 @@ import (
 	"go/ast"
 	"go/token"
 	"go/types"
-	"strings"
 
 	"go.uber.org/nilaway/annotation"
 	"go.uber.org/nilaway/config"
@@ -36,6 +35,10 @@ import (
 type Affiliation struct {
 	conf     *config.Config
 	triggers []annotation.FullTrigger
+	// visitedLocal stores the affiliations (interface type, implementing type) witnessed in the current
+	// package that cannot be identified by a Pair of names (see computeAfflitiationCacheKey); they are
+	// identified by the type objects themselves and are hence never shared with other packages.
+	visitedLocal map[[2]types.Type]bool
 }
 
 // Pair is a struct to store struct-interface affiliation pairs
@@ -287,15 +290,27 @@ func (a *Affiliation) computeTriggersForTypes(lhsType types.Type, rhsType types.
 
 	// Don't process if the affiliation is already analyzed in upstream packages' upstreamCache or
 	// the current package's upstreamCache.
-	key := computeAfflitiationCacheKey(lhsType, lhsObj, rhsObj)
-	if upstreamCache.Value(key) {
-		return nil
+	if key, ok := computeAfflitiationCacheKey(lhsType, rhsObj); ok {
+		if upstreamCache.Value(key) {
+			return nil
+		}
+		if currentCache.Value(key) {
+			return nil
+		}
+		// Add unvisited entry.
+		currentCache.Store(key, true)
+	} else {
+		// The names do not identify the two types, so the affiliation can only be recognized within
+		// the current package, by the identity of the types.
+		localKey := [2]types.Type{types.Unalias(lhsType), rhsObj}
+		if a.visitedLocal[localKey] {
+			return nil
+		}
+		if a.visitedLocal == nil {
+			a.visitedLocal = make(map[[2]types.Type]bool)
+		}
+		a.visitedLocal[localKey] = true
 	}
-	if currentCache.Value(key) {
-		return nil
-	}
-	// Add unvisited entry.
-	currentCache.Store(key, true)
 
 	var triggers []annotation.FullTrigger
 	// for each method declared in the interface, find its corresponding concrete implementation
@@ -312,43 +327,42 @@ func (a *Affiliation) computeTriggersForTypes(lhsType types.Type, rhsType types.
 	return triggers
 }
 
-func getFullyQualifiedName(t types.Type) string {
-	s := ""
-	switch n := t.(type) {
-	case *types.Named:
-		s = n.String()
-	case *types.Interface:
-		// interface has no exported field/method that can be used to get its fully qualified path directly. However,
-		// its declared methods (*types.Func) have such exported methods. Therefore, the below logic extracts the
-		// interface's fully qualified path from its method's FullName()
-		if n.NumMethods() > 0 {
-			s = n.Method(0).FullName()
-			// funcName.FullName() returns a string of the form "(/path/to/interface).funcName". The below code strips
-			// off the method name and parentheses to get only "/path/to/interface"
-			i := strings.LastIndex(s, ".")
-			if i > -1 {
-				s = s[:i]
-			}
-			s = strings.ReplaceAll(s, "(", "")
-			s = strings.ReplaceAll(s, ")", "")
-		}
+// getFullyQualifiedName returns the fully qualified name of the given type (e.g., "path/to/pkg.S") if
+// that name identifies the type in all packages, i.e., if the type is a named type declared at the
+// package level (or in the universe scope). For all other types it returns false: the name of a type
+// declared inside a function (e.g., "path/to/pkg.L") can be shared by several types of that package,
+// and unnamed interface types and type parameters have no name of their own.
+func getFullyQualifiedName(t types.Type) (string, bool) {
+	n, ok := t.(*types.Named)
+	if !ok {
+		return "", false
 	}
-	return s
+	if obj := n.Obj(); obj.Pkg() != nil && obj.Pkg().Scope().Lookup(obj.Name()) != obj {
+		return "", false
+	}
+	return n.String(), true
 }
 
-func computeAfflitiationCacheKey(interfaceType types.Type, interfaceObj *types.Interface, concreteObj *types.Named) Pair {
-	// Prefer the name of the declared interface type: the first method of the underlying interface
-	// may be promoted from an embedded interface, in which case distinct interfaces that embed the
-	// same interface would share a key.
-	interfaceObjFQ := getFullyQualifiedName(types.Unalias(interfaceType))
-	if interfaceObjFQ == "" {
-		interfaceObjFQ = getFullyQualifiedName(interfaceObj)
+// computeAfflitiationCacheKey returns the key of the given affiliation in the cache shared with the
+// downstream packages. It returns false if the affiliation has no such key: a key must never be
+// shared by two different affiliations, since all but the first one of them would be skipped.
+func computeAfflitiationCacheKey(interfaceType types.Type, concreteObj *types.Named) (Pair, bool) {
+	// We use the name of the declared interface type (rather than a name derived from the methods of
+	// the underlying interface): the first method of the underlying interface may be promoted from an
+	// embedded interface, in which case distinct interfaces that embed the same interface would share
+	// a key.
+	interfaceObjFQ, ok := getFullyQualifiedName(types.Unalias(interfaceType))
+	if !ok {
+		return Pair{}, false
 	}
-	concreteObjFQ := getFullyQualifiedName(concreteObj)
+	concreteObjFQ, ok := getFullyQualifiedName(concreteObj)
+	if !ok {
+		return Pair{}, false
+	}
 	return Pair{
 		ImplementedID: concreteObjFQ,
 		DeclaredID:    interfaceObjFQ,
-	}
+	}, true
 }
 
 // createFunctionTriggers verifies the nilability annotations of the concrete implementation of a method
